@@ -952,6 +952,9 @@ def pol_mru(ctx, d, paths):
             for i, e in ev_of(o, 'DEL', 'DELMISS'):
                 v = e.args[0]
                 src = [(j, x) for j, x in enumerate(evs[:i]) if x.kind == 'BK' and x.val == v]
+                tested_empty = any(x.kind == 'BKTEST' and x.args[0] == Q and x.args[1] == C(False) for x in evs[:i])
+                if tested_empty and not src and contains_term(v, lambda t: t[0] == 'ev' and t[1] == 'keys'):
+                    continue    # no recency information at all (e.g. after a bulk load): any resident key may go
                 if not (src and src[0][1].args[0] == Q and src[0][1].args[1] == C(pop)):
                     ok = False
                     why = 'the MRU victim %s is not taken from the recent end of the queue (%s.%s())' % (render(v), d.bkname(Q), pop)
